@@ -5,7 +5,7 @@
 # (mutant, check): exit code and the first VIOLATION line.
 WT=${WT:-/tmp/wt/chk}
 SCR=${SCR:-/tmp/lvm}
-declare -A RELATED=( [C16_a]="C13 C02" [C16_b]="C19" [C09_b]="C04" [C01_b]="C05" )
+declare -A RELATED=( [C15r2_b]="C13" [C16r2_a]="C13 C02" [C16r2_b]="C19" [C16_a]="C13 C02" [C16_b]="C19" [C09_b]="C04" [C01_b]="C05" )
 mkdir -p $SCR/build
 rsync -r --delete --exclude target /verif/harness/ $SCR/harness/
 cp /verif/known_findings.json $SCR/; mkdir -p $SCR/corpus
